@@ -36,6 +36,7 @@ class E4(object):
                                 sorted(self.registries))
         self.value_classes = dict((r["value_cls"], key)
                                   for key, r in self.registries.items())
+        self._entry_of = {}
         self.retentions = []   # (cls, attr, value_cls, event, path)
         self.evictions = []    # (owner_cls, attr, event, path)
         self._construct_once()
@@ -238,6 +239,8 @@ class E4(object):
     def _rule_u_pair(self, owner, attr, vcls, e, p, loops, hcls, hattr, sites):
         construct = "eviction %s.%s in %s vs holder %s.%s" % (owner, attr, e["func"],
                                                                 hcls, hattr)
+        self._entry_of[construct] = p.entry
+        self._entry_of[construct + " [release on disconnect]"] = p.entry
         # (c) transient retention: every retention site's handler clears the
         # field again on every normal path
         transient = True
@@ -384,6 +387,10 @@ class E4(object):
         self.add("rule_u", construct + " [release on disconnect]", "", ok,
                  "" if ok else "the registration made at the retention site is never "
                  "undone when the connection closes: the object can never be evicted")
+
+    def entry_of(self, f):
+        """entry point on whose path the eviction of a rule_u finding lies"""
+        return self._entry_of.get(f.construct, "")
 
     def failed(self, kinds=None):
         return [f for f in self.findings if not f.ok and (kinds is None or f.kind in kinds)]
